@@ -36,6 +36,10 @@ def handleLine (line : String) : String :=
     match handleD prop rest with
     | some v => s!"{id} {prop} {v.render}"
     | none => s!"{id} {prop} BAD unparsable-case"
+  | "P" :: id :: prop :: rest =>
+    match handleP rest with
+    | some v => s!"{id} {prop} {v.render}"
+    | none => s!"{id} {prop} BAD unparsable-case"
   | [] => ""
   | kind :: id :: _ => s!"{id} ? BAD unknown-kind {kind}"
   | [x] => s!"{x} ? BAD short-line"
